@@ -145,7 +145,7 @@ GStep(st, ev) ==
               [st |-> [st EXCEPT !.E = IF ev.e = "dtor" THEN Del(st.E, ev.x)
                                        ELSE Put(st.E, ev.x, [r EXCEPT !.lst = 0, !.rep = (@ \/ u)]),
                                  !.L = L1,
-                                 !.ctx = [NoCtx EXCEPT !.kind = "dtor", !.f = ev.x, !.need = IF ev.v = 1 THEN 1 ELSE -1]],
+                                 !.ctx = [NoCtx EXCEPT !.kind = "dtor", !.f = ev.x, !.need = IF u THEN 1 ELSE -1]],     \* what the MODEL says is owed, not what the hook claims
                mis |-> Settle(st)
                        \o Chk((ev.v = 1) <=> u, "unfulfilled", "C04",
                               <<"reported iff linked, not yet named in a report, below the lower bound", u>>, <<ev.v, r>>)]
